@@ -104,6 +104,13 @@ func (vm *VM) errIndexOutOfRange() runtimeError {
 	return runtimeError(s)
 }
 
+// isUnhashableError reports whether s is the message of the runtime error
+// raised when a value with an unhashable type is used as a map key.
+func isUnhashableError(s string) bool {
+	return strings.HasPrefix(s, "runtime error: hash of unhashable type ") ||
+		strings.HasPrefix(s, "hash of unhashable type: ")
+}
+
 // newPanic returns a new *PanicError with the given error message.
 func (vm *VM) newPanic(msg any) *PanicError {
 	if vm.fn == nil {
@@ -187,9 +194,9 @@ func (vm *VM) convertPanic(msg any) error {
 		if err, ok := msg.(string); ok && strings.HasPrefix(err, "reflect: cannot convert slice with length") {
 			return vm.newPanic(runtimeError("runtime error:" + err[len("reflect:"):]))
 		}
-	case OpDelete:
+	case OpDelete, OpMapIndex, -OpMapIndex:
 		if err, ok := msg.(runtime.Error); ok {
-			if s := err.Error(); strings.HasPrefix(s, "hash of unhashable type: ") {
+			if s := err.Error(); isUnhashableError(s) {
 				return vm.newPanic(runtimeError(s))
 			}
 		}
@@ -205,7 +212,7 @@ func (vm *VM) convertPanic(msg any) error {
 		}
 	case OpIf, -OpIf:
 		if err, ok := msg.(runtime.Error); ok {
-			if s := err.Error(); strings.HasPrefix(s, "runtime error: comparing uncomparable type ") {
+			if s := err.Error(); strings.HasPrefix(s, "runtime error: comparing uncomparable type ") || isUnhashableError(s) {
 				return vm.newPanic(runtimeError(s))
 			}
 		}
@@ -262,8 +269,7 @@ func (vm *VM) convertPanic(msg any) error {
 	case OpSetMap, -OpSetMap:
 		if err, ok := msg.(runtime.Error); ok {
 			s := err.Error()
-			if s == "assignment to entry in nil map" ||
-				strings.HasPrefix(s, "runtime error: hash of unhashable type ") {
+			if s == "assignment to entry in nil map" || isUnhashableError(s) {
 				return vm.newPanic(runtimeError(s))
 			}
 		}
